@@ -7,15 +7,43 @@ import json
 import random
 
 
+_SIMPLE = {"a": "\a", "b": "\b", "f": "\f", "n": "\n", "r": "\r", "t": "\t", "v": "\v", "\\": "\\", '"': '"', "'": "'"}
+
+
 def _unq(s):
-    """names are written by the harness with strconv.QuoteToASCII"""
+    """undo Go's strconv.QuoteToASCII (the harness writes names and texts with it)"""
     s = s.strip()
-    if len(s) >= 2 and s[0] == '"':
-        try:
-            return json.loads(s)
-        except Exception:
-            return s[1:-1]
-    return s
+    if not (len(s) >= 2 and s[0] == '"' and s[-1] == '"'):
+        return s
+    body = s[1:-1]
+    out = []
+    i = 0
+    while i < len(body):
+        ch = body[i]
+        if ch != "\\":
+            out.append(ch)
+            i += 1
+            continue
+        e = body[i + 1] if i + 1 < len(body) else ""
+        if e in _SIMPLE:
+            out.append(_SIMPLE[e])
+            i += 2
+        elif e == "x":
+            out.append(chr(int(body[i + 2:i + 4], 16)))
+            i += 4
+        elif e == "u":
+            out.append(chr(int(body[i + 2:i + 6], 16)))
+            i += 6
+        elif e == "U":
+            out.append(chr(int(body[i + 2:i + 10], 16)))
+            i += 10
+        elif e.isdigit():
+            out.append(chr(int(body[i + 1:i + 4], 8)))
+            i += 4
+        else:
+            out.append(e)
+            i += 2
+    return "".join(out)
 
 
 class G:
